@@ -187,6 +187,38 @@ theorem ok_reachable_legacy_partial (ops : List Op) (h : noNamedRemoteProxy ops 
   ok_of_inv (inv_run (inv_init true) ops)
     (fun _ => noNamedProxy_run true ops init (by simp [noNamedProxy, init]) h)
 
+/-- A late `drain()` on an actor that has begun to stop changes nothing at all: the status word is
+not rewound (seeded changes C10-4 / C11-4 break exactly this), so the lifecycle guard's final
+`set_status(Stopping)` is not a first transition and the cleanup block is not run again. -/
+theorem late_drain_is_noop (l : Bool) (s : State) (a : Nat) (x : Actor) (hg : getA s a = some x)
+    (h : x.status ≥ stopping) : step l s (.drain a) = (s, .ok) := by
+  simp only [step, hg]
+  rw [if_neg]
+  intro c; omega
+
+/-- Nothing that can be done through a stale reference to an exiting actor touches either table
+or any actor: in particular the names of the live actors stay where they are. -/
+theorem exiting_actor_env_frame (l : Bool) (s : State) (a : Nat) (x : Actor) (hg : getA s a = some x)
+    (h : x.status ≥ stopping) (op : Op) (hop : isStaleRefOp a op = true) : (step l s op).1 = s := by
+  cases op with
+  | drain b =>
+    simp only [isStaleRefOp, beq_iff_eq] at hop
+    subst hop
+    rw [late_drain_is_noop l s b x hg h]
+  | lookup n => rfl
+  | lookupPid b => rfl
+  | waitRet b => rfl
+  | _ => simp [isStaleRefOp] at hop
+
+/-- …and `drain()` on a live actor only moves its status word (to `Draining`): both tables and the
+cleanup election are as before. -/
+theorem drain_keeps_tables (l : Bool) (s : State) (a : Nat) :
+    (step l s (.drain a)).1.names = s.names ∧ (step l s (.drain a)).1.pids = s.pids := by
+  simp only [step]
+  split
+  · exact ⟨rfl, rfl⟩
+  · split <;> exact ⟨rfl, rfl⟩
+
 /-- Status words only grow (`fetch_max`) and the cleanup block is elected at most once. -/
 theorem cleanup_once (l : Bool) (s : State) (a st : Nat) (x : Actor) (hg : getA s a = some x)
     (hpc : x.pc ≠ 0) (hi : Inv l s) :
@@ -242,3 +274,6 @@ end C10
 #print axioms C10.stale_unregister_legacy
 #print axioms C10.ok_reachable_legacy_partial
 #print axioms C10.cleanup_once
+#print axioms C10.late_drain_is_noop
+#print axioms C10.exiting_actor_env_frame
+#print axioms C10.drain_keeps_tables
